@@ -11,7 +11,8 @@ import subprocess
 LEVEL = 'proof'
 CLAIM = ("For every catalogued component-wise operator and function (vector operators + - * / % & | ^ << >> ~ unary+- ++ -- == != && || and their "
          "compound/scalar/vec1 overload shapes; func_common, func_exponential, func_trigonometric, func_vector_relational, func_integer; ext/vector_common, "
-         "vector_relational, vector_integer, vector_reciprocal; gtc/epsilon; gtx/component_wise folds; matrix abs/mix/equal/notEqual) the clang IR of the "
+         "vector_relational, vector_integer, vector_reciprocal, vector_ulp; gtc/epsilon, gtc/round; gtx/component_wise folds, 3/4-argument min/max with gtx/extended_min_max; "
+         "matrix abs/mix/equal/notEqual) the clang IR of the "
          "vector overload and of the scalar overload applied to the same symbolic component values are executed into SMT terms and the solver shows "
          "component i of the vector result is bit-identical (NaN payload excepted) to the scalar result, for all component values, lengths 1-4, "
          "element types and qualifiers of the tier; fma is shown equal in rounding-erased (real) arithmetic because scalar fma is std::fma and vector fma is a*b+c.")
@@ -25,7 +26,8 @@ OUTSIDE = ("size of the rounding difference between scalar std::fma and vector a
            "roundEven's int(x) for |x| >= 2^31 / NaN is UB in both overloads (C20), equality is shown with the conversion as the same unspecified function; "
            "aligned_* qualifiers and SIMD builds (C03); bitfieldReverse/bitfieldInsert on 8/16-bit element types (do not compile, see C05); gtx/extended_min_max: its scalar 3/4-argument overloads are ambiguous with ext/scalar_common (do not compile) and its C<T> overloads cannot bind vec<L,T,Q>, "
            "vector calls resolve to ext/vector_common which is covered; compound assignments with a right-hand side of another element type U != T.")
-ASSUMPTIONS = ['libm transcendentals (sin, exp, pow, ...) and frexp/ldexp are uninterpreted functions: the vector and the scalar overload are shown to call the same library function on the same argument',
+ASSUMPTIONS = ['libm transcendentals (sin, exp, pow, fmod, ...) are uninterpreted functions: the vector and the scalar overload are shown to call the same library function on the same argument; modf/frexp/ldexp/nextafter use the bit-level models of engine/models.py',
+               'IEEE addition and multiplication are commutative and 1*x == x: both sides are brought to a canonical operand order before comparison (props/c01.py:canon), because clang orders commutative operands differently in the two computations',
                'the scalar reference for builtin operators is the compiler\'s own scalar expression (T)(a op b) in the same translation unit',
                'clang -O1 may already merge the two computations; then the obligation is decided by term identity (clang lowering is in the trusted base)']
 NATIVE = True
